@@ -11,8 +11,9 @@ Gms/Model/RangeMap.lean and Gms/Model/JsonQuote.lean. Proved here, for all input
   source on every run (`encode_guard_present`);
 * `internal/strings.Unquote` (JSON_UNQUOTE): the Spec never panics, the code agrees with it off the
   listed region, `finding_unquote_bad_unicode_escape` is the witness that it panics inside;
-* `validateMysqlNativePassword`: panics exactly for responses of 1..19 bytes against a valid
-  stored hash (`native_password_crash_iff`), `finding_native_password_short_response`.
+* `validateMysqlNativePassword` (as repaired by d3c438db7): never panics and equals its Spec for all
+  inputs (`native_password_total_safe`, `native_password_eq_spec`); the pre-fix code panicked exactly
+  for responses of 1..19 bytes (`nativePasswordPreFix_crash_iff`, `fixed_native_password_short_response`).
 
 Everything else of the engine is explored, not proved: the harness runs statement streams through
 `Engine.Query` and lists the crash sites it reaches (known_findings/C10.jsonl, regions `panic:<site>`);
@@ -51,8 +52,10 @@ open Gms.RangeMap Gms.Crash Gms.JsonQuote
 from the source on every run: `Engine.Query` / `QueryWithBindings` recover nothing; the planbuilder
 recovers only its own `parseErr`, `replanJoin` only `memo.MemoErr` (everything else is re-panicked);
 `Decode` has the length guard, `EncodeReplaceUnknown` bounds its search by `len(str)`;
-`validateMysqlNativePassword` returns early only for an empty response / empty or non-hex stored
-hash and then runs `for i := range scramble { scramble[i] ^= authResponse[i] }`; `Unquote` guards
+`validateMysqlNativePassword` returns early for an empty response / empty or non-hex stored hash
+and — the repair of F-C40-a, commit d3c438db7 — for `len(authResponse) != len(scramble)`, and only
+then runs `for i := range scramble { scramble[i] ^= authResponse[i] }` (if that guard disappears
+this obligation breaks and the real code disagrees with the model on 1..19-byte responses); `Unquote` guards
 `s[i+1 : i+5]` with `i+4 > len(s)`. -/
 theorem facts_match :
     Generated.C10.decodeHasLengthGuard = true ∧
@@ -62,7 +65,8 @@ theorem facts_match :
     Generated.C10.recoverParse = ["parseErr"] ∧
     Generated.C10.recoverBindOnly = ["parseErr"] ∧
     Generated.C10.recoverReplanJoin = ["memo.MemoErr"] ∧
-    Generated.C10.nativePasswordEarlyReturns = ["len(authResponse) == 0 || len(mysqlNativePassword) == 0", "err != nil"] ∧
+    Generated.C10.nativePasswordEarlyReturns =
+      ["len(authResponse) == 0 || len(mysqlNativePassword) == 0", "err != nil", "len(authResponse) != len(scramble)"] ∧
     Generated.C10.nativePasswordLoop = "range scramble: { scramble[i] ^= authResponse[i] }" ∧
     Generated.C10.unquoteUnicodeGuard = "i+4 > len(s)" := by decide
 
@@ -138,11 +142,43 @@ example : unquote [92, 117, 100, 56, 48, 48] = .crash ∧ crashes [92, 117, 49, 
 
 /-! ### mysql_native_password -/
 
-/-- **The byte loop panics exactly for a non-empty response that is shorter than the SHA-1**,
-checked against a usable stored hash. -/
-theorem native_password_crash_iff (scramble resp : List Nat) (hashOk : Bool) :
-    nativePassword scramble resp hashOk = .crash ↔ (resp ≠ [] ∧ hashOk = true ∧ resp.length < scramble.length) := by
+/-- **The password check never panics** (any scramble, any response, any stored hash): the byte
+loop is only reached with a response exactly as long as the scramble. -/
+theorem native_password_total_safe (scramble resp : List Nat) (hashOk : Bool) :
+    nativePassword scramble resp hashOk ≠ .crash := by
   unfold nativePassword
+  by_cases he : resp.isEmpty
+  · simp [he]
+  · cases hashOk
+    · simp [he]
+    · by_cases hl : resp.length = scramble.length
+      · simp only [he, Bool.false_eq_true, if_false, Bool.not_true, hl, ne_eq, not_true_eq_false]
+        cases hx : xorLoop scramble resp with
+        | none => have := (xorLoop_none_iff scramble resp).mp hx; omega
+        | some v => simp
+      · simp [he, hl]
+
+/-- **The code is the Spec**, for all inputs (this was `native_password_partial`, guarded by the
+region 1 ≤ len(response) < 20, before the repair). -/
+theorem native_password_eq_spec (scramble resp : List Nat) (hashOk : Bool) :
+    nativePassword scramble resp hashOk = nativePasswordSpec scramble resp hashOk := by
+  unfold nativePassword nativePasswordSpec
+  by_cases he : resp.isEmpty
+  · simp [he]
+  · cases hashOk
+    · simp [he]
+    · by_cases hl : resp.length = scramble.length
+      · simp only [he, Bool.false_eq_true, if_false, Bool.not_true, hl, ne_eq, not_true_eq_false]
+        cases hx : xorLoop scramble resp with
+        | none => have := (xorLoop_none_iff scramble resp).mp hx; omega
+        | some v => rfl
+      · simp [he, hl]
+
+/-- Before the repair the byte loop panicked exactly for a non-empty response shorter than the
+SHA-1, checked against a usable stored hash. -/
+theorem nativePasswordPreFix_crash_iff (scramble resp : List Nat) (hashOk : Bool) :
+    nativePasswordPreFix scramble resp hashOk = .crash ↔ (resp ≠ [] ∧ hashOk = true ∧ resp.length < scramble.length) := by
+  unfold nativePasswordPreFix
   by_cases he : resp.isEmpty
   · have : resp = [] := List.isEmpty_iff.mp he
     simp [this]
@@ -157,31 +193,18 @@ theorem native_password_crash_iff (scramble resp : List Nat) (hashOk : Bool) :
           have := (xorLoop_none_iff scramble resp).mpr h; rw [hx] at this; cases this
         simp [this]
 
-/-- FULL STATEMENT (false on the unchanged tree): `nativePassword = nativePasswordSpec`.
-**Partial**: off the region (1 ≤ len(response) < 20) the code does what the Spec does. -/
-theorem native_password_partial (scramble resp : List Nat) (hashOk : Bool)
-    (h : ¬ (resp ≠ [] ∧ resp.length < scramble.length)) :
-    nativePassword scramble resp hashOk = nativePasswordSpec scramble resp hashOk := by
-  unfold nativePassword nativePasswordSpec
-  by_cases he : resp.isEmpty
-  · simp [he]
-  · have hne : resp ≠ [] := fun h => he (by simp [h])
-    have hlen : ¬ resp.length < scramble.length := fun hl => h ⟨hne, hl⟩
-    cases hashOk
-    · simp [he]
-    · simp only [he, Bool.false_eq_true, if_false, Bool.not_true, hlen]
-      cases hx : xorLoop scramble resp with
-      | none => exact absurd ((xorLoop_none_iff scramble resp).mp hx) hlen
-      | some v => rfl
-
-/-- Finding F-C40-a: a 19-byte response against a 20-byte scramble. -/
-theorem finding_native_password_short_response :
-    ∃ scramble resp, nativePassword scramble resp true ≠ nativePasswordSpec scramble resp true :=
-  ⟨List.replicate 20 0, List.replicate 19 1, by decide⟩
+/-- F-C40-a (repaired by d3c438db7). Witness of the repaired defect: a 19-byte response against a
+20-byte scramble made the pre-fix code panic; the repaired code rejects it. A 21-byte response whose
+first 20 bytes are a valid token was compared (trailing bytes ignored) and is now rejected too. -/
+theorem fixed_native_password_short_response :
+    nativePasswordPreFix (List.replicate 20 0) (List.replicate 19 1) true = .crash ∧
+    nativePassword (List.replicate 20 0) (List.replicate 19 1) true = .rejected ∧
+    nativePasswordPreFix (List.replicate 20 0) (List.replicate 21 1) true = .compared ∧
+    nativePassword (List.replicate 20 0) (List.replicate 21 1) true = .rejected := by decide
 
 example : nativePassword (List.replicate 20 7) (List.replicate 20 1) true = .compared ∧
     nativePassword (List.replicate 20 7) [] true = .rejected ∧
-    nativePassword (List.replicate 20 7) (List.replicate 21 1) true = .compared ∧
-    nativePassword (List.replicate 20 7) [1] true = .crash := by decide
+    nativePassword (List.replicate 20 7) (List.replicate 20 1) false = .rejected ∧
+    nativePassword (List.replicate 20 7) [1] true = .rejected := by decide
 
 end Gms.C10
